@@ -77,7 +77,10 @@ fn check_in_place(sub: &str, args_before_file: &[&str], file: &str, args_after_f
 fn tmp(dir: &str, k: &mut usize, text: &str) -> String {
     *k += 1;
     let p = format!("{dir}/t{}.nwk", *k);
-    std::fs::write(&p, text).unwrap();
+    // files end the way files end: nothing, a newline, blank lines, CR LF, trailing blanks, a further tree on the next line —
+    // the tool reads the FIRST tree of the file and everything after its semicolon is ignored (as `from_newick` does)
+    let tail = ["", "\n", "\n\n", "\r\n", "  \n", "\n(ignored,second,tree);\n", "\n\n\n"][*k % 7];
+    std::fs::write(&p, format!("{text}{tail}")).unwrap();
     p
 }
 
@@ -292,6 +295,11 @@ pub fn run(thorough: bool, seed: u64, driver: &str, rep: &mut Report) {
             texts.push(text);
         }
         if files.len() < 2 { continue; }
+        // now and then the same file is given twice
+        if round % 3 == 2 {
+            files.push(files[0].clone());
+            texts.push(texts[0].clone());
+        }
         let ctx0 = format!("tree files: {}", texts.join(" | "));
         rep.case(&ctx0, true);
         rep.count("runs:several-files");
@@ -473,6 +481,7 @@ pub fn run(thorough: bool, seed: u64, driver: &str, rep: &mut Report) {
             for p in picks.iter() {
                 args.push(p);
             }
+            // (the model request below also covers names of INTERNAL nodes; the path-walk oracle is about tips)
             let r = run_cli(&args);
             rep.count("runs:distance");
             check_output_option("distance", &args, &r, &format!("{dir}/o{k}.tsv"), false, &format!("{ctx0}\nphylotree distance FILE {picks:?}"), rep);
@@ -510,6 +519,29 @@ pub fn run(thorough: bool, seed: u64, driver: &str, rep: &mut Report) {
                 }
             } else if r.code != Some(0) || r.stdout != want {
                 rep.oracle("distance", "differs-from-path-walk", &format!("{ctx0}\nphylotree distance FILE {picks:?}"), &format!("exit {:?}\n{}\nexpected\n{want}", r.code, r.stdout));
+            }
+        }
+        // ---------------- distance between NAMED INTERNAL nodes and tips (the tool resolves names; it does not ask for tips) ----------------
+        if ti % 3 == 0 && leaves.len() >= 2 {
+            let mut all_names: Vec<String> = vec![];
+            let mut internal: Vec<String> = vec![];
+            t.for_each(&mut |x, _| if let Some(n) = &x.name { all_names.push(n.clone()); if !x.kids.is_empty() { internal.push(n.clone()); } });
+            internal.retain(|n| all_names.iter().filter(|m| *m == n).count() == 1 && !n.starts_with('-'));
+            if let Some(inner) = internal.first() {
+                let picks2 = vec![leaves[0].clone(), inner.clone(), leaves[leaves.len() - 1].clone()];
+                let mut args = vec!["distance", file.as_str()];
+                for p in picks2.iter() { args.push(p); }
+                let r = run_cli(&args);
+                rep.count("runs:distance-with-an-internal-node");
+                let names = picks2.iter().map(|x| hex(x)).collect::<Vec<_>>().join(",");
+                let expect = if r.code == Some(0) {
+                    let rows: Vec<String> = r.stdout.lines().skip(1).map(|l| { let f: Vec<&str> = l.split('\t').collect(); if f.len() == 3 { format!("{}:{}:{}", hex(f[0]), hex(f[1]), f[2].parse::<f64>().ok().and_then(scaled).map_or(format!("?{}", f[2]), |n| n.to_string())) } else { format!("?{l}") } }).collect();
+                    format!("ok {}", rows.join(";"))
+                } else { "err".to_string() };
+                reqs.push(load.clone());
+                pend.push(None);
+                reqs.push(format!("cli.distance\t{names}"));
+                pend.push(Some(Pend { ctx: format!("{ctx0}\nphylotree distance FILE {picks2:?}"), cli_tree: None, cli_failed: false, kind: "value", expect_line: Some(expect) }));
             }
         }
         // ---------------- compare ----------------
@@ -597,7 +629,9 @@ pub fn run(thorough: bool, seed: u64, driver: &str, rep: &mut Report) {
         {
             let thr = *rng.pick(&[0.0, 0.5, 1.0, 2.0, 4.0, 100.0]);
             let excl = rng.chance(1, 2);
-            let mut args = vec!["collapse".to_string(), file.clone(), format!("{thr}")];
+            // the threshold in whatever spelling a float literal may have on a command line
+            let thr_text = match (ti / 2) % 4 { 0 => format!("{thr}"), 1 => format!("{thr:e}"), 2 => format!("+{thr}"), _ => format!("{thr:.3}") };
+            let mut args = vec!["collapse".to_string(), file.clone(), thr_text];
             if excl {
                 args.push("-e".into());
             }
@@ -664,7 +698,9 @@ pub fn run(thorough: bool, seed: u64, driver: &str, rep: &mut Report) {
         // ---------------- rescale ----------------
         {
             let kf = *rng.pick(&[2i64, 3, 0]);
-            let r = run_cli(&["rescale", &format!("{kf}"), &file]);
+            // the factor in other spellings of the same number
+            let kf_text = match ti % 4 { 0 => format!("{kf}"), 1 => format!("{kf}e0"), 2 => format!("{kf}.0"), _ => format!("+{kf}") };
+            let r = run_cli(&["rescale", &kf_text, &file]);
             rep.count("runs:rescale");
             let ctx = format!("{ctx0}\nphylotree rescale {kf} FILE");
             check_output_option("rescale", &["rescale", &format!("{kf}"), &file], &r, &format!("{dir}/o{k}.nwk"), true, &ctx, rep);
